@@ -115,6 +115,16 @@ class Proc(plumpy.Process):
             ENV.sample('step', 'run:before-execute', self)
             child.execute()
             ENV.sample('step', 'run:after-execute', self)
+        elif self.ROLE == 'controller':
+            # a step of this process makes code of *another* process run (that one's pause / play hooks) while that other
+            # process is itself further down the stack (it executes this one from one of its callbacks)
+            host = ENV.procs[self.NAME.rsplit('.', 1)[0]]
+            host.pause('by the process it executes')
+            ENV.sample('step', 'run:after-host-pause', self)
+            host.play()
+            ENV.sample('step', 'run:after-host-play', self)
+            await asyncio.sleep(0)
+            ENV.sample('step', 'run:after-host-control-and-yield', self)
         elif self.ROLE == 'yielder':
             pass
         self.out('o', 1)
@@ -122,6 +132,13 @@ class Proc(plumpy.Process):
 
     def callback(self, tag: str) -> None:
         ENV.sample('callback', f'callback:{tag}', self)
+
+    def host_callback(self) -> None:
+        ENV.sample('callback', 'host:enter', self)
+        child = Proc(inputs={'name': self.NAME + '.ctl', 'role': 'controller'}, pid=self.NAME + '.ctl', loop=self.loop)
+        ENV.sample('callback', 'host:before-execute', self)
+        child.execute()
+        ENV.sample('callback', 'host:after-execute', self)
 
     def second(self, value: Any) -> Any:
         ENV.sample('continuation', 'second:enter', self)
@@ -135,6 +152,24 @@ class Proc(plumpy.Process):
 
 for _name in HOOKS:
     setattr(Proc, _name, _hook(_name))
+
+
+class SamplingWaiting(process_states.Waiting):
+    """A WAITING state of the user's own (what aiida-core does): its ``execute`` is code of the process."""
+
+    async def execute(self) -> Any:
+        ENV.sample('state', 'waiting.execute:enter', self.process)
+        await asyncio.sleep(0)
+        ENV.sample('state', 'waiting.execute:after-yield', self.process)
+        return await super().execute()
+
+
+class CwProc(Proc):
+    @classmethod
+    def get_state_classes(cls) -> Any:
+        states = dict(super().get_state_classes())
+        states[process_states.ProcessState.WAITING] = SamplingWaiting
+        return states
 
 
 async def drive(proc: Any) -> None:
@@ -160,6 +195,10 @@ SCENARIOS: Dict[str, Tuple[Tuple[str, str], ...]] = {
     'three': (('A', 'plain'), ('B', 'launcher'), ('C', 'nester')),
     'hand-stepped': (('A', 'plain'),),
     'hand-stepped+launcher': (('A', 'plain'), ('B', 'launcher')),
+    'host': (('A', 'host'),),
+    'host+plain': (('A', 'host'), ('B', 'plain')),
+    'custom-wait': (('A', 'customwait'),),
+    'custom-wait+launcher': (('A', 'customwait'), ('B', 'launcher')),
 }
 
 
@@ -212,9 +251,12 @@ class Prop:
                 failed_construction(loop)
                 env.sample('harness', 'after-failed-construction', None)
                 for name, role in SCENARIOS[scenario]:
-                    proc = Proc(inputs={'name': name, 'role': role}, pid=name, loop=loop)
+                    proc = (CwProc if role == 'customwait' else Proc)(inputs={'name': name, 'role': role}, pid=name, loop=loop)
                     env.sample('harness', 'after-construction', None)
-                    if scenario.startswith('hand-stepped') and name == 'A':
+                    if role == 'host':
+                        # never stepped: one of its scheduled callbacks executes another process, whose step controls it
+                        proc.call_soon(proc.host_callback)
+                    elif scenario.startswith('hand-stepped') and name == 'A':
                         tasks.append(loop.create_task(drive(proc)))
                     else:
                         tasks.append(loop.create_task(proc.step_until_terminated()))
@@ -263,9 +305,11 @@ def units_for(tier: str) -> List[Any]:
     names = ['two-plain', 'launcher', 'launcher+plain', 'nester', 'nester+plain']
     units: List[Any] = [(n, False) for n in names] + [('two-plain', True), ('launcher', True), ('nester', True)]
     units += [('hand-stepped', True), ('hand-stepped', False)]
+    units += [('host', False), ('custom-wait', False), ('custom-wait', True)]
     if tier != 'quick':
         # (three processes at once, and two with a pause on top, do not finish within any reasonable time: measured, not run)
-        units += [('nester+launcher', False), ('nester+plain', True), ('hand-stepped+launcher', False)]
+        units += [('nester+launcher', False), ('nester+plain', True), ('hand-stepped+launcher', False), ('host+plain', False),
+                  ('custom-wait+launcher', False)]
     return units
 
 
